@@ -26,7 +26,7 @@ func init() {
 			"(11) the built-in response-wrapping policy text names exactly cubbyhole/response [create, read] and sys/wrapping/unwrap [update], the policy is in the immutable table, and SetPolicy writes only across that table's refusal; " +
 			"(12) handleWrappingLookup reads the wrap info through a context switched to the namespace found from the looked-up token's NamespaceID; " +
 			"(13) handleWrappingRewrap consumes the use, reads the cubbyhole and revokes through a context switched to that namespace as well; " +
-			"(14) the token revoked after a third-party unwrap / rewrap is named by the looked-up entry's own ID, not by the (external) form found in the request. (4b) UseTokenByID — how a third-party unwrap or rewrap claims the single use — hands back only UseToken's own results: a token that lookup no longer returns is an error, never a success (shared with C19.1). Throughout, a call is located by its resolved callee — written directly, made through a bound method value, made on every path by a closure of the function / an unexported helper of the package, or deferred through such a closure — and its arguments are followed back through captured variables, once-assigned locals and the parameters of such closures; what cannot be followed is reported as undecided.",
+			"(14) the token revoked after a third-party unwrap / rewrap is named by the looked-up entry's own ID, not by the (external) form found in the request. (4b) UseTokenByID — how a third-party unwrap or rewrap claims the single use — hands back only UseToken's own results: a token that lookup no longer returns is an error, never a success (shared with C19.1). (15) writer/reader agreement on the WrapInfo that reaches wrapInCubbyhole, by field identity: every field wrapInCubbyhole loads through resp.WrapInfo is set — from the same field of the WrapInfo that is replaced — by each fresh WrapInfo literal handleRequest / handleLoginRequest assign to a response, and each field it loads only on the rewrap arm and files under a constant key of the stored wrap info (CreationPath / creation_path) is set by handleWrappingRewrap's WrapInfo literal from the old token's stored entry under that key. Throughout, a call is located by its resolved callee — written directly, made through a bound method value, made on every path by a closure of the function / an unexported helper of the package, or deferred through such a closure — and its arguments are followed back through captured variables, once-assigned locals and the parameters of such closures; what cannot be followed is reported as undecided.",
 		NotDecided: "'exactly one of k concurrent unwraps succeeds' (schedules); TTL expiry behaviour; that the cubbyhole backend isolates tokens (C12.4).",
 		Run:        runC18,
 	})
